@@ -40,4 +40,13 @@ theorem floor_roundtrip (o h t : Rat) (v : Int) (r : Bool) (hh : 0 < h) (h0 : 0 
     Rat.floor (sgn r * ((o + sgn r * ((v : Rat) + t) * h) - o) / h) = v := by
   rw [axis_roundtrip o h _ r hh]; exact floor_int_add v t h0 h1
 
+/-- float bridge for `ceil` (patch sizes, `num_voxels`): note that the breakpoints of `ceil` are the integers themselves, so
+an exactly integral quotient is NOT stable — the reason the float evaluation of `ceil(n·h/h)` can give `n + 1` -/
+theorem ceil_stable (x e δ : Rat) (hlo : ((x.ceil : Int) : Rat) - 1 + δ ≤ x) (hhi : x ≤ ((x.ceil : Int) : Rat) - δ)
+    (he : |e| < δ) : Rat.ceil (x + e) = Rat.ceil x := by
+  have h := abs_lt.mp he
+  have a : (x + e).ceil ≤ x.ceil := Rat.ceil_le_iff.mpr (by linarith)
+  have b : x.ceil - 1 < (x + e).ceil := Rat.lt_ceil_iff.mpr (by push_cast; linarith)
+  omega
+
 end Darsia
